@@ -15,4 +15,5 @@ class Date(internal.SingleValueRawTokenModel[datetime.date]):
 
     @classmethod
     def _format_value(cls, value: datetime.date) -> str:
-        return value.strftime('%Y-%m-%d')
+        # strftime('%Y') does not zero-pad years below 1000 on glibc, but DATE needs at least four digits.
+        return f'{value.year:04d}-{value.month:02d}-{value.day:02d}'
